@@ -191,7 +191,10 @@ class World:
         for i, f in enumerate(prog.adts[adt_path]["variants"][0]["fields"]):
             t = prog.types[f["ty"]]
             p2 = path + (i,)
-            if t["k"] == "adt" and t["path"].startswith("tftpd::") and t["path"] in prog.adts and prog.adts[t["path"]]["kind"] == "struct" and depth < 4:
+            if t["k"] == "adt" and t["path"] in prog.adts and prog.transparent_adt(t["path"]):
+                # a newtype over an integer is represented like the integer (no extra path element)
+                yield (p2, prog.adts[t["path"]]["variants"][0]["fields"][0]["ty"], f["name"])
+            elif t["k"] == "adt" and t["path"].startswith("tftpd::") and t["path"] in prog.adts and prog.adts[t["path"]]["kind"] == "struct" and depth < 4:
                 for x in self.struct_leaves(t["path"], p2, depth + 1):
                     yield x
             else:
